@@ -27,7 +27,7 @@ HsChecks(e) ==
   \cup Flag(e.dec = "ok" => (e.sc.rs = e.sc.rPriv), "C05_decrypted_by_unaddressed_key")
 
 \* C06: the real encryptor and the specification's terms agree byte for byte (and on refusal)
-HsFormat(e) == Flag(e.same /\ e.wrote = e.spec_wrote, "C06_encoder_output_differs_from_specification")
+HsFormat(e) == Flag(e.sc.forge # "none" \/ (e.same /\ e.wrote = e.spec_wrote), "C06_encoder_output_differs_from_specification")
 
 \* C06 (c): frozen files keep decrypting and parse under the specification
 GoldenChecks(e) ==
